@@ -33,6 +33,8 @@ CLAIMS = {
          "not decided: equality of what an independent parser would decode, request serialisation (req.write), multipart, 100-continue, streaming mode; the reader is the assumed abstract model. Known finding: without a limit the allocation size is peer-controlled (makeslice panic)", "3 C11"),
  "C04": ("slices: a response that must not carry a body is exactly one with status 1xx, 204 or 304 (MustSkipContentLength) or with SkipBody set (MustSkipBody); SetContentLength leaves such a header untouched and otherwise stores the argument (text emptied for unknown lengths, AppendUint called with exactly the length on an emptied buffer); AppendUint: the digits it assembles are 1..20 decimal digits whose value is n and the result is dst followed by exactly those bytes; resp.Write (abstract-mode typestate): the header block goes to the writer first and once, the body only when MustSkipBody is false and non-empty, it is the response's body slice, and the Content-Length handed to the header equals its length; ext.WriteChunk writes size(len(b)), CRLF, b and, for a non-empty chunk, CRLF, in this order",
          "not decided: what an independent client decodes; WriteHexInt's digits (pool-typed buffer), writeBodyStream, chunkedBodyWriter, flush thresholds; the fold over AppendUint's result equals the fold over its scratch buffer (extensionality step not mechanised); argsKV list helpers are assumed frames", "3 C04"),
+ "C02": ("frame slice only: the in-place header scanner never disturbs bytes it has not consumed — HeaderScanner.Next leaves its window a suffix of the old window in the same array with the same end and changes memory only inside the prefix consumed by that step; normalizeHeaderValue writes only inside the value it compacts and returns an in-place suffix; NormalizeHeaderKey changes only the letter case of the bytes of its argument",
+         "not decided: the relational claim itself (identical results for all segmentations is a 2-safety property over schedules), the retry loops around errNeedMore, ReadRawHeaders/NextLine purity, HLen accounting on the folded path, the client side; partial correctness (bounds assumed in Next and normalizeHeaderValue)", "3 C02"),
 }
 NA = {
  "C06": "recursive pointer trie with back-pointers, goto/closure backtracking and a recursive priority-match specification; no contract within reach of this tool chain states or decides priority dispatch",
